@@ -314,8 +314,44 @@ def check(ctx):
         specs.compare(ctx, "C10.d", f"{name} = documented formula", f, spec, source="functional/bounding.py docstring")
         cnt += 1
     ctx.require("C10.d", "bounding kernels", cnt, 15)
+    # ---------------- C10.f one-step range invariant (inductive step of "stays inside [min, max] forever")
+    range_invariant(ctx)
     ctx.assume("torch.stack / the configured reduction / torch.heaviside implement their documented semantics")
     ctx.assume("bound_*_sharp: the value at the limit is 0 (second heaviside argument), as property C10 requires")
+
+
+def range_invariant(ctx):
+    """With multiplicative dependence and reduced magnitudes in [0, 1] (scaled multiplicative: in [0, range]) one application
+    maps [min, max] into itself: new - min and max - new are polynomials with non-negative coefficients in non-negative
+    quantities.  Proved from the kernels' own value-flow terms: param = min + a, max = min + a + b (a, b >= 0)."""
+    P = ctx.prog
+    a, b, mn = nf.sym("a"), nf.sym("b"), nf.sym("min")
+    pos, neg, pc, ncx = nf.sym("pos"), nf.sym("neg"), nf.sym("pos_c"), nf.sym("neg_c")   # pos_c = cap - pos >= 0, neg_c = cap - neg >= 0
+    assume = {k: "P" for k in ("a", "b", "pos", "neg", "pos_c", "neg_c")}
+    for name, cap in (("bound_multiplicative", nf.C(1)), ("bound_scaled_multiplicative", a + b)):
+        f = P.fn(name, module="functional.bounding")
+        env = {"param": mn + a, "max": mn + a + b, "min": mn}
+        facts = nf.Facts()
+        for v in ("max", "min"):
+            facts = facts.assume(nf.app("isnone", env[v]), False)
+        # lower bound: substitute neg = cap - neg_c
+        lo_t, _ = terms.function_term(P, f, dict(env, pos=pos, neg=cap - ncx), facts=facts)
+        hi_t, _ = terms.function_term(P, f, dict(env, pos=cap - pc, neg=neg), facts=facts)
+        ok_lo = ok_hi = False
+        if isinstance(lo_t, nf.Rat) and isinstance(hi_t, nf.Rat):
+            lower = nf.restrict(a + lo_t, facts)            # new - min
+            upper = nf.restrict(b - hi_t, facts)            # max - new
+            ok_lo = nf.sign_of(lower, assume) in ("P", "Z")
+            ok_hi = nf.sign_of(upper, assume) in ("P", "Z")
+            detail = f"new - min = {nf.show(lower)[:120]};  max - new = {nf.show(upper)[:120]}"
+        else:
+            detail = "kernel term not a single expression"
+        capn = "1" if name == "bound_multiplicative" else "max - min"
+        ctx.ob("C10.f", f"{name}: a parameter inside [min, max] stays inside after one update with parts in [0, {capn}]", ok_lo and ok_hi,
+               detail + ("" if ok_lo and ok_hi else " — not provably non-negative: the update can leave the range"), f.where)
+        ctx.touch(f)
+    # Accumulator applies exactly param + update
+    ctx.note("C10.f: the invariant is inductive: Accumulator.forward = param + update (C10.c), update = kernel(param, reduce(pos), reduce(neg)) (C10.e)")
 
 
 def check_accumulator_update(ctx, rule):
